@@ -503,7 +503,44 @@ def r7(ctx):
         ctx.ok('PixelRegion._validate_mode', 'raises exactly on invalid mode / non-positive-int subpixels')
 
 
+def r0(ctx):
+    """Assumption check (never a violation): the generated C next to each kernel quotes the current .pyx."""
+    import os
+    import re as _re
+    root = ctx.src.root
+    for kind in ('circular', 'elliptical', 'rectangular', 'polygonal', 'pnpoly'):
+        stem = f'regions/_geometry/{kind}_overlap' if kind != 'pnpoly' else 'regions/_geometry/pnpoly'
+        cpath = os.path.join(root, stem + '.c')
+        if not os.path.exists(cpath) or not ctx.src.exists(stem + '.pyx'):
+            ctx.ok(stem + '.pyx', 'generated C not present: kernel source vs binary cannot be cross-checked here (assumption stands unverified)')
+            continue
+        pyx = ctx.src.text(stem + '.pyx').split('\n')
+        with open(cpath, encoding='utf-8', errors='replace') as fh:
+            ctext = fh.read()
+        same = diff = 0
+        first = None
+        for mm in _re.finditer(r'/\* "%s\.pyx":(\d+)\n((?: \*.*\n)+?) \*/' % _re.escape(stem), ctext):
+            n = int(mm.group(1))
+            marked = [l for l in mm.group(2).split('\n') if l.rstrip().endswith('# <<<<<<<<<<<<<<')]
+            if not marked or n > len(pyx):
+                continue
+            quoted = marked[0][3:].rstrip()[:-len('# <<<<<<<<<<<<<<')].rstrip()
+            if quoted.strip() == pyx[n - 1].strip():
+                same += 1
+            else:
+                diff += 1
+                first = first or (n, quoted.strip(), pyx[n - 1].strip())
+        if diff:
+            ctx.note(f'STALE-GENERATED-C {stem}.c: {diff} quoted lines differ from the current .pyx, e.g. line {first[0]}: '
+                     f'C quotes `{first[1]}`, source has `{first[2]}` — the shipped binary was not built from this source; '
+                     'kernel-source verdicts do not bind it')
+            ctx.ok(stem + '.pyx', f'ASSUMPTION FAILS: generated C is stale ({diff} of {same + diff} quoted lines differ)')
+        else:
+            ctx.ok(stem + '.pyx', f'generated C quotes the current source ({same} lines compared)')
+
+
 RULES = [
+    RuleDef('R0', 'assumption check: generated C is fresh w.r.t. the .pyx analysed (never a violation)', r0, 5, tier='thorough'),
     RuleDef('R1', 'mode validated; center rewritten to subpixels(1)', r1, 4),
     RuleDef('R2', 'kernel call arguments: grid placement and size conventions', r2, 4),
     RuleDef('R3', 'kernel sampling and pixel-grid skeletons (4+4 siblings)', r3, 8),
